@@ -323,6 +323,32 @@ func confExec(tok []string) string {
 		return confFmt(tok)
 	case "tmpl":
 		return confTmpl(tok)
+	case "fl":
+		return confFl(tok)
+	case "dfl":
+		return confDfl(tok)
+	case "usg":
+		return confUsg(tok)
+	case "cf":
+		return confCF(tok)
+	case "load":
+		return confLoad(tok)
+	case "sload":
+		return confSLoad(tok)
+	case "sx":
+		return confSX(tok)
+	case "cx":
+		return confCX(tok)
+	case "cval":
+		return confCVal(tok)
+	case "sval":
+		return confSVal(tok)
+	case "nr":
+		return confNR(tok)
+	case "bweq":
+		return confBWEq(tok)
+	case "env":
+		return confEnv()
 	}
 	panic("unknown op " + tok[0])
 }
@@ -572,7 +598,26 @@ func confGen(rng *rand.Rand, n int, emit func(string)) {
 	emit("reset")
 	// the recorded finding first, so that every run reproduces it against the real code
 	emit("dom " + hx("example.com") + " " + hx("") + " " + hx("evil.EXAMPLE.com") + " uc=1")
+	// the recorded differences between flag defaults and file defaults, and the flag that never takes effect
+	for _, g := range []string{"s", "s bind", "p:tcp", "p:http", "v:xtcp", "v:stcp"} {
+		emit("dfl " + g)
+	}
+	emit("fl s 0 e:dashboard_tls_mode:" + hx("true")[1:] + " e:dashboard_tls_cert_file:" + hx("c.pem")[1:] + " e:dashboard_tls_key_file:" + hx("k.pem")[1:])
+	emit("env")
+	for _, t := range confTypes {
+		emit("usg p:" + t + " 0")
+		emit("usg p:" + t + " 1")
+	}
+	for _, t := range []string{"stcp", "xtcp", "sudp"} {
+		emit("usg v:" + t + " 0")
+	}
+	emit("usg s 0")
 	for i := 0; i < n; i++ {
+		// a third of the stream: loaders from disk, flags, client-side validators (eng_conf_load.go)
+		if rng.Intn(3) == 0 {
+			confGenExt(rng, emit)
+			continue
+		}
 		switch k := rng.Intn(100); {
 		case k < 40:
 			emit(genRT(rng))
